@@ -237,6 +237,47 @@ def rule_exits_select(eng, rep, rule="C04-4.all-exits-go-through-final-selection
     rep.require_count(rule, "returns of solve_main after the Controller exists", n, 2)
 
 
+def rule_incumbent_not_overwritten_blindly(eng, rep, rule="C04-5.incumbent-is-replaced-only-by-a-point-known-to-be-better"):
+    """Controller.choose_point_to_replace may return the incumbent's index only when skip_kopt is False.  That is allowed only where the
+    candidate is known to improve on the incumbent (the actual reduction was positive: guard `ratio > 0` with ratio from calculate_ratio);
+    everywhere else the incumbent must be skipped, otherwise the best point can be overwritten without having been saved."""
+    from ..resolve import bind_call
+    cp = eng.fn("controller.Controller.choose_point_to_replace")
+    if "skip_kopt" not in cp.all_params:
+        raise AnalysisError("anchor parameter skip_kopt of choose_point_to_replace vanished")
+    n = 0
+    for ci in eng.calls_to(cp.fid):
+        n += 1
+        fi = ci.caller
+        cfg = eng.cfg(fi)
+        b = bind_call(ci.node, cp, True)
+        e = b.params.get("skip_kopt")
+        site = eng.where(fi, ci.node)
+        val = None
+        if isinstance(e, tuple):
+            val = e[1].value if isinstance(e[1], ast.Constant) else None
+        elif isinstance(e, ast.Constant):
+            val = e.value
+        if val is True:
+            rep.ok(rule, site, "incumbent is skipped when choosing the point to replace")
+            continue
+        # skip_kopt False / unknown: needs the improvement guard
+        okc = False
+        for (bn, a) in guards_of(cfg, cfg.cfg_node(ci.node)):
+            if a.op == "lt" and const_value(a.lhs) == 0 and isinstance(a.rhs, ast.Name):
+                for dn in cfg.defs_reaching(cfg.ast_of(bn), a.rhs.id):
+                    ds = cfg.ast_of(dn)
+                    if isinstance(ds, ast.Assign) and isinstance(ds.value, ast.Call) and any(t.fid == "controller.Controller.calculate_ratio" for t in eng.res.calls[id(ds.value)].targets) \
+                            and assigned_names(ds.targets[0])[:1] == [a.rhs.id]:
+                        okc = True
+        if okc:
+            rep.ok(rule, site, "the incumbent may be chosen, but only under `ratio > 0` (the new point reduced the objective)")
+        else:
+            rep.bad(rule, site, "%s|incumbent-may-be-overwritten|skip_kopt=%s" % (fi.fid, ekey(e) if e is not None and not isinstance(e, tuple) else "default"),
+                    "choose_point_to_replace may return the incumbent here (skip_kopt is not True) although nothing establishes that the new point is better: the best point can be overwritten without being saved")
+    rep.require_count(rule, "call sites of choose_point_to_replace", n, 3)
+
+
 def run(eng, rep):
     rep.explain("C04: typestate 'pending evaluation result' over every CFG path after each of the evaluate_objective call sites (T3): the "
                 "result must reach change_point/add_new_point/save_point unless nothing was evaluated or the value is NaN; the incumbent save "
@@ -247,3 +288,4 @@ def run(eng, rep):
     rule_incumbent_saved_before_restart(eng, rep)
     rule_selection(eng, rep, "C04-3.selection-prefers-the-smaller-value", {"ORDER", "NONE_HOLDER"}, "C04")
     rule_exits_select(eng, rep)
+    rule_incumbent_not_overwritten_blindly(eng, rep)
